@@ -13,6 +13,8 @@ import XotModel.Lemmas.FcloneLocal4
 import XotModel.Lemmas.FcloneLocal5
 import XotModel.Lemmas.FlocalAll3
 import XotModel.Lemmas.FclonePrefix8
+import XotModel.Lemmas.FcloneRoundTrip
+import XotModel.Lemmas.FcloneRepr2
 import XotModel.Model.FcloneModel
 import XotModel.Generated
 
@@ -234,6 +236,225 @@ example : (exForest.cloneNode 3).1.serialises exEnv 7 = false := by decide +kern
 example : (exForest.cloneWithPrefixes 3 [(2, 2)]).1.serialises exEnv 7 = true := by decide +kernel
 /-- a history on the source's tree whose arguments avoid the clone -/
 example : ∀ op ∈ [EditOp.setText 5 ['y'], EditOp.remove 4, EditOp.append 1 5], ∀ a ∈ op.args, a < 6 := by decide
+
+/-! ### The clone reparses: `parse(to_string(clone_with_prefixes(source)))`
+
+`Forest.serialises` IS "`to_string(node)` succeeds" for a parentless node (`C12_serialises_is_to_string`),
+`to_string` of a parentless element writes what `to_string` of the document holding just that element
+writes (Lemmas/RoundTripElement.lean), so the tree-level round trip C01_roundtrip_identical applies to
+the clone. -/
+
+/-- What `Forest.serialises` means for a root (a parentless node, e.g. a clone): `to_string(root)`
+    succeeds — for every table set in which `xml` and the declared prefixes have a spelling. -/
+theorem C12_serialises_is_to_string (env : Env) (f : Forest) (inv : f.Inv) (r : HTree) (hr : r ∈ f.roots)
+    (hx : env.prefixStr Env.xmlPrefix ≠ []) (ht : r.erase.allNodes (declsNamed env) = true) :
+    f.serialises env r.handle = true ↔ ∃ s, toXmlString env r.erase [] = .ok s := by
+  rw [serialises_root env f inv r hr]
+  exact (serializeString_root_ok_iff (env := env) {} rfl r.erase hx ht).symm
+
+/-- **C12_clone_roundtrip**: under the hypotheses of `C12_prefixes` (the source element serialises in
+    place; `order` is any enumeration of `inherited_prefixes(source)`), if moreover the CLONE lies in
+    the round-trip domain of C01 (`hrep`: the document holding just the erased clone is
+    `Representable`: tables with the built-in values, `nodeOK` at every node of the clone — the added
+    namespace nodes included —, no repeated `xml:id` value), then: the clone `c` is a parentless
+    element, `to_string(c)` succeeds with some text `s`, `parse(s)` succeeds, the parsed tree is the
+    document holding exactly the clone — id for id, the added declarations included —, the interning
+    tables are unchanged, and the parsed document is `deep_equal` to the document holding the source
+    subtree (with adjacent text nodes merged when consolidation is on, as `clone_node` does:
+    C12_equal).  Proved with the hypothesis on the clone; `C12_clone_roundtrip_strict` replaces the
+    merged source by the source itself. -/
+theorem C12_clone_roundtrip (env : Env) (f : Forest) (inv : f.Inv)
+    (node : Nat) (src : HTree) (rest : List HTree) (hpath : f.pathTo node = src :: rest)
+    (hel : src.value.isElement = true)
+    (hroot : ∀ r ∈ f.roots, HTree.pathTo node r = some (src :: rest) → f.serialises env r.handle = true)
+    (order : List (Nat × Nat)) (hord : ∀ b, b ∈ order ↔ b ∈ f.inheritedPrefixes env node)
+    (hfun : ∀ a ∈ order, ∀ b ∈ order, a.1 = b.1 → a = b)
+    (hrep : ∀ c C, (f.cloneWithPrefixes node order).2 = some c →
+      (f.cloneWithPrefixes node order).1.get? c = some C →
+      Representable env (.node .document [C.erase]) = true) :
+    ∃ c C s p, (f.cloneWithPrefixes node order).2 = some c ∧
+      (f.cloneWithPrefixes node order).1.get? c = some C ∧
+      (f.cloneWithPrefixes node order).1.isRoot c = true ∧ C.value.isElement = true ∧
+      serializeString env {} C.erase [] = .ok s ∧ parseString .document env s = .ok p ∧
+      p.tree = .node .document [C.erase] ∧ p.env = env ∧
+      deepEqual p.tree (.node .document
+        [if f.consolidation then mergeAdjacentText src.erase else src.erase]) = true := by
+  cases src with
+  | node hs v Ks =>
+    cases v with
+    | element name =>
+      obtain ⟨c, C, s, p, h1, h2, h3, h4, h5, h6, h7, h8, h9⟩ :=
+        cloneWithPrefixes_roundtrip env f inv node hs name Ks rest hpath
+          (fun r hr hp => by rw [← serialises_root env f inv r hr]; exact hroot r hr hp) order hord hfun hrep
+      exact ⟨c, C, s, p, h1, h2, h3, by rw [h4]; rfl, h5, h6, h7, h8, h9⟩
+    | document => simp [HTree.value, Value.isElement] at hel
+    | text s => simp [HTree.value, Value.isElement] at hel
+    | pi t d => simp [HTree.value, Value.isElement] at hel
+    | comment s => simp [HTree.value, Value.isElement] at hel
+    | «attribute» a s => simp [HTree.value, Value.isElement] at hel
+    | «namespace» a s => simp [HTree.value, Value.isElement] at hel
+
+/-- While consolidation has never been switched off (no adjacent text nodes anywhere) the reparsed
+    clone is `deep_equal` to the document holding the source subtree itself. -/
+theorem C12_clone_roundtrip_strict (env : Env) (f : Forest) (inv : f.Inv) (hoff : f.everOff = false)
+    (node : Nat) (src : HTree) (rest : List HTree) (hpath : f.pathTo node = src :: rest)
+    (hel : src.value.isElement = true)
+    (hroot : ∀ r ∈ f.roots, HTree.pathTo node r = some (src :: rest) → f.serialises env r.handle = true)
+    (order : List (Nat × Nat)) (hord : ∀ b, b ∈ order ↔ b ∈ f.inheritedPrefixes env node)
+    (hfun : ∀ a ∈ order, ∀ b ∈ order, a.1 = b.1 → a = b)
+    (hrep : ∀ c C, (f.cloneWithPrefixes node order).2 = some c →
+      (f.cloneWithPrefixes node order).1.get? c = some C →
+      Representable env (.node .document [C.erase]) = true) :
+    ∃ c C s p, (f.cloneWithPrefixes node order).2 = some c ∧
+      (f.cloneWithPrefixes node order).1.get? c = some C ∧
+      serializeString env {} C.erase [] = .ok s ∧ parseString .document env s = .ok p ∧
+      p.tree = .node .document [C.erase] ∧ p.env = env ∧
+      deepEqual p.tree (.node .document [src.erase]) = true := by
+  obtain ⟨c, C, s, p, h1, h2, _, _, h5, h6, h7, h8, h9⟩ :=
+    C12_clone_roundtrip env f inv node src rest hpath hel hroot order hord hfun hrep
+  refine ⟨c, C, s, p, h1, h2, h5, h6, h7, h8, ?_⟩
+  obtain ⟨hget, _⟩ := Forest.get?_of_pathTo hpath
+  have hv := inv.valid_get hget
+  rw [hoff] at hv
+  have := expectedClone_strict f.consolidation src hv
+  unfold expectedClone at this
+  rw [this] at h9
+  exact h9
+
+/-- **C12_clone_roundtrip with the hypothesis on the SOURCE** instead of the clone: if the tables
+    hold the built-in values (`envOK`), every node of the root tree containing the source is `nodeOK`
+    (Model/SerTokens.lean: structure, no adjacent text, well-formed names and character data,
+    declarations XML can express) and no `xml:id` value is repeated inside the source, then the clone
+    — the copy of the source plus one namespace node per inherited prefix — lies in the round-trip
+    domain (`cloneWithPrefixes_representable`: every added declaration is a declaration of an ancestor,
+    no prefix is declared twice), so: `to_string(clone)` succeeds, the text parses, the parsed tree is
+    the document holding exactly the clone, tables unchanged, and it is `deep_equal` to the document
+    holding the source subtree itself. -/
+theorem C12_clone_roundtrip_source (env : Env) (f : Forest) (inv : f.Inv)
+    (node : Nat) (src : HTree) (rest : List HTree) (hpath : f.pathTo node = src :: rest)
+    (hel : src.value.isElement = true)
+    (hroot : ∀ r ∈ f.roots, HTree.pathTo node r = some (src :: rest) → f.serialises env r.handle = true)
+    (order : List (Nat × Nat)) (hord : ∀ b, b ∈ order ↔ b ∈ f.inheritedPrefixes env node)
+    (hfun : ∀ a ∈ order, ∀ b ∈ order, a.1 = b.1 → a = b)
+    (henv : envOK env = true)
+    (hok : ∀ r ∈ f.roots, HTree.pathTo node r = some (src :: rest) → r.erase.allNodes (nodeOK env) = true)
+    (hids : (xmlIdValues env src.erase).Nodup) :
+    ∃ c C s p, (f.cloneWithPrefixes node order).2 = some c ∧
+      (f.cloneWithPrefixes node order).1.get? c = some C ∧
+      (f.cloneWithPrefixes node order).1.isRoot c = true ∧ C.value.isElement = true ∧
+      Representable env (.node .document [C.erase]) = true ∧
+      serializeString env {} C.erase [] = .ok s ∧ parseString .document env s = .ok p ∧
+      p.tree = .node .document [C.erase] ∧ p.env = env ∧
+      deepEqual p.tree (.node .document [src.erase]) = true := by
+  have hrep : ∀ c C, (f.cloneWithPrefixes node order).2 = some c →
+      (f.cloneWithPrefixes node order).1.get? c = some C →
+      Representable env (.node .document [C.erase]) = true ∧
+        expectedClone f.consolidation src.erase = src.erase := by
+    cases src with
+    | node hs v Ks =>
+      cases v with
+      | element name =>
+        exact cloneWithPrefixes_representable env f inv node hs name Ks rest hpath order
+          (fun b hb => (hord b).mp hb) henv hok hids
+      | document => simp [HTree.value, Value.isElement] at hel
+      | text s => simp [HTree.value, Value.isElement] at hel
+      | pi t d => simp [HTree.value, Value.isElement] at hel
+      | comment s => simp [HTree.value, Value.isElement] at hel
+      | «attribute» a s => simp [HTree.value, Value.isElement] at hel
+      | «namespace» a s => simp [HTree.value, Value.isElement] at hel
+  obtain ⟨c, C, s, p, h1, h2, h3, h4, h5, h6, h7, h8, h9⟩ :=
+    C12_clone_roundtrip env f inv node src rest hpath hel hroot order hord hfun
+      (fun c C hc hC => (hrep c C hc hC).1)
+  have hfix := (hrep c C h1 h2).2
+  unfold expectedClone at hfix
+  rw [hfix] at h9
+  exact ⟨c, C, s, p, h1, h2, h3, h4, (hrep c C h1 h2).1, h5, h6, h7, h8, h9⟩
+
+/-- Non-vacuity, closed: tables with the built-in values in which name 6 lies in namespace 2,
+    declared with prefix 2 on the ancestor of the source (element 3 of `exForest`); the clone with the
+    inherited declaration is `<p:a xmlns:p="u" b="v">x</p:a>`, and every hypothesis of
+    `C12_clone_roundtrip` / `_strict` holds by evaluation. -/
+def exEnvR : Env :=
+  { namespaces := [[], xmlNamespaceUri, ['u']], prefixes := [[], ['x', 'm', 'l'], ['p']],
+    names := [(['s', 'p', 'a', 'c', 'e'], 1), (['i', 'd'], 1), (['a'], 0), (['b'], 0), (['c'], 0), (['d'], 0),
+      (['a'], 2)] }
+
+/-- the clone: handles 7 (root), 10 (the added declaration), 8, 9 -/
+example : (exForest.cloneWithPrefixes 3 [(2, 2)]).2 = some 7 ∧
+    ((exForest.cloneWithPrefixes 3 [(2, 2)]).1.get? 7).map HTree.handles = some [7, 10, 8, 9] := by
+  decide +kernel
+example : ((exForest.cloneWithPrefixes 3 [(2, 2)]).1.get? 7).map
+    (fun C => Representable exEnvR (.node .document [C.erase])) = some true := by decide +kernel
+example : ((exForest.cloneWithPrefixes 3 [(2, 2)]).1.get? 7).map
+    (fun C => serializeString exEnvR {} C.erase []) =
+      some (.ok "<p:a xmlns:p=\"u\" b=\"v\">x</p:a>".toList) := by decide +kernel
+
+example : ∃ c C s p, (exForest.cloneWithPrefixes 3 [(2, 2)]).2 = some c ∧
+    (exForest.cloneWithPrefixes 3 [(2, 2)]).1.get? c = some C ∧
+    serializeString exEnvR {} C.erase [] = .ok s ∧ parseString .document exEnvR s = .ok p ∧
+    p.tree = .node .document [C.erase] ∧ p.env = exEnvR ∧
+    deepEqual p.tree (.node .document [.node (.element 6)
+      [.node (.attribute 3 ['v']) [], .node (.text ['x']) []]]) = true := by
+  have hp : exForest.pathTo 3 =
+      [.node 3 (.element 6) [.node 4 (.attribute 3 ['v']) [], .node 5 (.text ['x']) []],
+       .node 1 (.element 2) [.node 2 (.namespace 2 2) [],
+         .node 3 (.element 6) [.node 4 (.attribute 3 ['v']) [], .node 5 (.text ['x']) []]],
+       .node 0 .document [.node 1 (.element 2) [.node 2 (.namespace 2 2) [],
+         .node 3 (.element 6) [.node 4 (.attribute 3 ['v']) [], .node 5 (.text ['x']) []]]]] := by
+    rfl
+  have hc1 : (exForest.cloneWithPrefixes 3 [(2, 2)]).2 = some 7 := by decide +kernel
+  have hc2 : ((exForest.cloneWithPrefixes 3 [(2, 2)]).1.get? 7).map
+      (fun C => Representable exEnvR (.node .document [C.erase])) = some true := by decide +kernel
+  exact C12_clone_roundtrip_strict exEnvR exForest ((Forest.inv_iff _).mp (by decide)) rfl 3 _ _ hp rfl
+    (fun r hr _ => by
+      have : r = .node 0 .document [.node 1 (.element 2) [.node 2 (.namespace 2 2) [],
+          .node 3 (.element 6) [.node 4 (.attribute 3 ['v']) [], .node 5 (.text ['x']) []]]] := by
+        simpa [exForest] using hr
+      subst this
+      decide +kernel)
+    [(2, 2)]
+    (by rw [show exForest.inheritedPrefixes exEnvR 3 = [(2, 2)] from by decide +kernel]; intro b; exact Iff.rfl)
+    (by decide)
+    (fun c C h1 h2 => by
+      rw [hc1] at h1
+      cases h1
+      rw [h2] at hc2
+      simpa using hc2)
+
+/-- The same from the hypotheses on the source (`C12_clone_roundtrip_source`), closed. -/
+example : ∃ c C s p, (exForest.cloneWithPrefixes 3 [(2, 2)]).2 = some c ∧
+    (exForest.cloneWithPrefixes 3 [(2, 2)]).1.get? c = some C ∧
+    (exForest.cloneWithPrefixes 3 [(2, 2)]).1.isRoot c = true ∧ C.value.isElement = true ∧
+    Representable exEnvR (.node .document [C.erase]) = true ∧
+    serializeString exEnvR {} C.erase [] = .ok s ∧ parseString .document exEnvR s = .ok p ∧
+    p.tree = .node .document [C.erase] ∧ p.env = exEnvR ∧
+    deepEqual p.tree (.node .document [.node (.element 6)
+      [.node (.attribute 3 ['v']) [], .node (.text ['x']) []]]) = true := by
+  have hp : exForest.pathTo 3 =
+      [.node 3 (.element 6) [.node 4 (.attribute 3 ['v']) [], .node 5 (.text ['x']) []],
+       .node 1 (.element 2) [.node 2 (.namespace 2 2) [],
+         .node 3 (.element 6) [.node 4 (.attribute 3 ['v']) [], .node 5 (.text ['x']) []]],
+       .node 0 .document [.node 1 (.element 2) [.node 2 (.namespace 2 2) [],
+         .node 3 (.element 6) [.node 4 (.attribute 3 ['v']) [], .node 5 (.text ['x']) []]]]] := by
+    rfl
+  have hr : ∀ r ∈ exForest.roots, r = .node 0 .document [.node 1 (.element 2) [.node 2 (.namespace 2 2) [],
+      .node 3 (.element 6) [.node 4 (.attribute 3 ['v']) [], .node 5 (.text ['x']) []]]] := by
+    intro r hr
+    simpa [exForest] using hr
+  exact C12_clone_roundtrip_source exEnvR exForest ((Forest.inv_iff _).mp (by decide)) 3 _ _ hp rfl
+    (fun r h _ => by rw [hr r h]; decide +kernel)
+    [(2, 2)]
+    (by rw [show exForest.inheritedPrefixes exEnvR 3 = [(2, 2)] from by decide +kernel]; intro b; exact Iff.rfl)
+    (by decide) (by decide)
+    (fun r h _ => by rw [hr r h]; decide +kernel)
+    (by decide)
+
+/-- … and the hypotheses on the source of `C12_clone_roundtrip_source` hold for it as well. -/
+example : envOK exEnvR = true ∧
+    (Tree.node .document [.node (.element 2) [.node (.namespace 2 2) [],
+      .node (.element 6) [.node (.attribute 3 ['v']) [], .node (.text ['x']) []]]]).allNodes (nodeOK exEnvR) = true ∧
+    (xmlIdValues exEnvR (.node (.element 6) [.node (.attribute 3 ['v']) [], .node (.text ['x']) []])).Nodup := by
+  decide
 
 /-! ### Locality for EVERY call
 
